@@ -8,6 +8,8 @@ From Coq Require Import List String NArith Bool Arith.
 From FFS Require Import Conc.Lockset Conc.LocksetProofs Gen.FsWalletSync Conc.FsWallet Conc.ClosePaths.
 From FFS Require Import Conc.Atomic Conc.AtomicProofs Conc.FsWalletAtomic.
 From FFS Require Import Wallet.Notify Wallet.NotifyProofs.
+From FFS Require Import Conc.Reduction Wallet.NotifyRefine Wallet.NotifyConform.
+From Coq Require Import Permutation.
 Import ListNotations.
 Open Scope list_scope.
 
@@ -204,6 +206,107 @@ Proof.
 Qed.
 Print Assumptions C17_converges.
 
+(* ---- 8. The link between 3a and 4-7: fine-grained interleavings refine the Notify model ---- *)
+
+(* 8a. The reduction lemma (Conc/Reduction.v), for the data-carrying interleaving semantics: global
+      state = protected data P (only touched inside critical sections), environment data E, the
+      holder of the mutex, the threads; a thread = a tree of actions Lock / Unlock / access to P (one
+      read or write; the continuation depends on the value read) / In-action on E (inside a critical
+      section) / Out-action on E (outside, possibly nondeterministic) / local step, ending in an
+      observation.  If every thread obeys the lock discipline [wl] (accesses to P and In-actions only
+      while holding the mutex, Out-actions only while not holding it: [CInv]) and the Out-actions
+      commute to the right of the In-actions, then every execution that ends with the mutex free has
+      the same final state — protected data, environment, every thread's remaining code and
+      observation — as a SERIAL execution of a permutation of its schedule: one in which, whenever a
+      thread holds the mutex, the next step is that thread's (critical sections run atomically). *)
+Theorem C17_reduction_lemma :
+  forall (P E Ch Obs OutA InA : Type)
+         (out_en : OutA -> E -> Ch -> Prop) (out_upd : OutA -> E -> Ch -> E) (in_upd : InA -> E -> E),
+    (forall a b e x, out_en a e x ->
+       out_en a (in_upd b e) x /\ out_upd a (in_upd b e) x = in_upd b (out_upd a e x)) ->
+    forall s0 sch sn,
+      CInv P E Ch Obs OutA InA s0 ->
+      exec _ (cstep P E Ch Obs OutA InA out_en out_upd in_upd) s0 sch sn ->
+      c_holder _ _ _ _ _ _ sn = None ->
+      exists sch', Permutation sch sch' /\
+        sexec _ (cstep P E Ch Obs OutA InA out_en out_upd in_upd) (c_holder _ _ _ _ _ _) s0 sch' sn.
+Proof. exact Reduction.reduction. Qed.
+Print Assumptions C17_reduction_lemma.
+
+(* 8b. The atomicity obligation is what makes the Notify model's atomic steps sound — for ANY
+      translated program p.  Wallet system (Wallet/NotifyRefine.v): P = (addressToFileMap,
+      addressList, listeners), E = (files, notifier goroutines, receive log); threads = any number
+      of AddListener / GetAccounts / Refresh / fs-event / notifyNewFiles calls, file creations and
+      channel sends ([wallet_threads]), written as action trees that access ONE field at a time
+      (Lock; read listeners; write listeners; Unlock ...), so every interleaving between two
+      accesses of a method is a schedule.  [conforms p c]: every complete event sequence of the tree c
+      is the projection (onto mux and the three fields) of the trace of a complete control-flow path
+      [Atomic.bpath] of a method of p listed in [atomic_steps].  THEN, if [steps_atomic_ok p fuel]:
+      every fine-grained execution from the freshly constructed wallet that ends with mux free has,
+      as its final (files, addressToFileMap, addressList, listeners, notifiers, log), exactly the
+      state [run (init ls) ops] of the Notify model for some ops, and ops is a valid step sequence
+      whenever the listener channels registered are distinct.  The lock discipline the reduction
+      needs is DERIVED from steps_atomic_ok through [conforms] ([discipline_from_atomic]); it is not
+      assumed.  With the critical section split (seed C17-2) steps_atomic_ok is false and nothing
+      follows. *)
+Theorem C17_atomic_steps_justify_model :
+  forall addr_of p fuel,
+    steps_atomic_ok p fuel = true ->
+    forall ls thr sch sn,
+      wallet_threads addr_of thr -> (forall c, In c thr -> conforms p c) ->
+      exec wcfg wstep (wallet_init ls thr) sch sn -> c_holder _ _ _ _ _ _ sn = None ->
+      exists ops,
+        run addr_of (init ls) ops = abs (c_p _ _ _ _ _ _ sn, c_e _ _ _ _ _ _ sn) /\
+        (NoDup (pls (c_p _ _ _ _ _ _ sn)) -> valid_seq addr_of (init ls) ops).
+Proof. exact fine_grained_refines. Qed.
+Print Assumptions C17_atomic_steps_justify_model.
+
+(* 8c. ... instantiated with the structure translated from the CURRENT source: the trees conform to
+      [fswallet_prog] ([tcode_conforms]: for every listing and every outcome of the map lookups a path
+      of the translated body of notifyNewFiles / AddListener / GetAccounts with the same projected
+      trace is constructed), and [steps_atomic_ok fswallet_prog fuel] is theorem 3a.  So: every
+      fine-grained interleaving of the translated methods has the same outcome as a run of the
+      Notify model.
+      What remains INFORMAL (see design/C17.md): (i) the DATA actions decorating the accesses
+      (what is written, which branch follows which value read: [NotifyRefine.loop], [add_code],
+      [get_code]) are transcribed by hand from the Go statements — the translator extracts only the
+      synchronisation structure; their event skeleton is proved to follow the translated structure,
+      their data is validated by the history replay like [Notify.scan]; (ii) the position of the `go`
+      inside the critical section and "Unlock only by the holder" are properties of the decoration
+      ([shape_ok]) — the path semantics gives `go` no event; Lockset's checker rejects an Unlock of
+      a mutex the goroutine does not hold (theorem 1); (iii) a thread performs ONE call; per-call
+      observations (the slice GetAccounts returns) are in the final thread state of 8a but are not
+      related to the Notify run here. *)
+Theorem C17_fine_grained_refines_notify :
+  forall addr_of ls thr sch sn,
+    wallet_threads addr_of thr ->
+    exec wcfg wstep (wallet_init ls thr) sch sn -> c_holder _ _ _ _ _ _ sn = None ->
+    exists ops,
+      run addr_of (init ls) ops = abs (c_p _ _ _ _ _ _ sn, c_e _ _ _ _ _ _ sn) /\
+      (NoDup (pls (c_p _ _ _ _ _ _ sn)) -> valid_seq addr_of (init ls) ops).
+Proof. exact (fswallet_fine_grained_refines (proj1 C17_discovery_steps_atomic)). Qed.
+Print Assumptions C17_fine_grained_refines_notify.
+
+(* 8d. ... hence exactly-once for the fine-grained system: at the end of ANY such execution (listener
+      channels distinct) the account list has no duplicates, no (listener, address) pair was
+      delivered or is queued twice, only registered listeners receive and only listed addresses, the
+      list holds only addresses of files present, and — when all sends have been performed — every
+      initial listener has received every listed address exactly once. *)
+Theorem C17_fine_grained_exactly_once :
+  forall addr_of ls thr sch sn,
+    wallet_threads addr_of thr ->
+    exec wcfg wstep (wallet_init ls thr) sch sn -> c_holder _ _ _ _ _ _ sn = None ->
+    NoDup (pls (c_p _ _ _ _ _ _ sn)) -> NoDup ls ->
+    let P := c_p _ _ _ _ _ _ sn in let E := c_e _ _ _ _ _ _ sn in
+    NoDup (pl P) /\
+    NoDup (elog E ++ flat_map n_remaining (en E)) /\
+    (forall l a, In (l, a) (elog E ++ flat_map n_remaining (en E)) -> In l (pls P) /\ In a (pl P)) /\
+    incl (pl P) (file_addrs addr_of (ef E)) /\
+    (flat_map n_remaining (en E) = [] ->
+       forall l a, In l ls -> In a (pl P) -> count_occ pair_dec (elog E) (l, a) = 1).
+Proof. exact (fswallet_fine_grained_outcome (proj1 C17_discovery_steps_atomic)). Qed.
+Print Assumptions C17_fine_grained_exactly_once.
+
 (* ---- non-vacuity ---- *)
 
 (* the race predicate is satisfiable and the checker rejects such a program: two goroutines writing
@@ -265,4 +368,23 @@ Proof.
       apply (Atomic.LP_seq _ _ _ [EAcc ["listeners"%string] false] [] [] [] false); [constructor|constructor].
     + constructor. constructor.
   - vm_compute. discriminate.
+Qed.
+
+(* a fine-grained execution that is NOT serial (a file appears between AddListener's read and write
+   of listeners) exists, meets the hypotheses of 8c/8d, and ends with the listener registered *)
+Example C17_fine_grained_nonvacuous :
+  forall addr_of,
+    wallet_threads addr_of ex_thr /\
+    exec wcfg wstep (wallet_init [100%N] ex_thr) [0; 0; 1; 0; 0] ex_final /\
+    c_holder _ _ _ _ _ _ ex_final = None /\ NoDup (pls (c_p _ _ _ _ _ _ ex_final)) /\
+    ~ sexec wcfg wstep (c_holder _ _ _ _ _ _) (wallet_init [100%N] ex_thr) [0; 0; 1; 0; 0] ex_final.
+Proof.
+  intros addr_of. split; [apply ex_fine_threads|]. split; [exact ex_fine_exec|]. split; [reflexivity|].
+  split; [cbn; repeat constructor; cbn; intuition discriminate|].
+  intros H. inversion H as [|s t s1 sch s' _ Hst1 H1]; subst.
+  destruct Hst1 as (c & h' & p' & e' & c' & Hn & Hs & ->). cbn in Hn. injection Hn as <-.
+  inversion Hs; subst. inversion H1 as [|s t s2 sch s' _ Hst2 H2]; subst.
+  destruct Hst2 as (c & h' & p' & e' & c'' & Hn & Hs2 & ->). cbn in Hn. injection Hn as <-.
+  inversion Hs2; subst. inversion H2 as [|s t s3 sch s' Hc _ _]; subst.
+  specialize (Hc 0 eq_refl). discriminate.
 Qed.
